@@ -320,6 +320,17 @@ class Calls(DataModels):
         if isinstance(obj, (SBytes, bytes)):
             return self.bytes_method(I, obj, name, args, kw, node)
         if isinstance(obj, ZlibObj):
+            if name == 'decompress' and isinstance(args[0], ZlibTail):
+                # decompress(<the same object's unconsumed_tail>, m): the stream continues where the previous call stopped
+                if args[0].obj is not obj or getattr(obj, 'state', None) is None:
+                    raise Unsupported('unconsumed_tail of another decompression object')
+                a, done = obj.state
+                total = inflate_len(*a)
+                mx = args[1] if len(args) > 1 else kw.get('max_length', 0)
+                rest = total - to_int(done)
+                n = z3.If(to_int(mx) == 0, rest, z3.If(rest < to_int(mx), rest, to_int(mx)))
+                obj.state = (a, z3.simplify(to_int(done) + n))
+                return SBytes(inflate_arr(*a), to_int(done), n)
             if name == 'decompress':
                 data = args[0] if isinstance(args[0], SBytes) else self.to_sbytes(I, args[0])
                 from .vals import view_args
@@ -333,6 +344,7 @@ class Calls(DataModels):
                     (total if mx == 0 else z3.If(total < mx, total, z3.IntVal(mx)))
                 arr = inflate_arr(*a)
                 I.ctx.byte_arrays.append(arr)
+                obj.state = (a, n)
                 return SBytes(arr, 0, n)
             raise Unsupported('zlib object method %s' % name)
         from .methods import ChunkList
@@ -1426,8 +1438,16 @@ def _b_count(M, I, args, kw, node):
 
 class ZlibObj:
     """zlib.decompressobj(): assumed contract decompress(z, n) = first n bytes of inflate(z)
-    (n = 0: no limit); may raise zlib.error on a corrupt stream"""
-    pass
+    (n = 0: no limit); may raise zlib.error on a corrupt stream; decompress(unconsumed_tail, m) continues the same stream
+    with the next m bytes"""
+    state = None
+
+
+class ZlibTail:
+    """the unconsumed_tail of a decompression object (only meaningful as the argument of its next decompress call)"""
+
+    def __init__(self, obj):
+        self.obj = obj
 
 
 inflate_arr = z3.Function('inflate.arr', ArrS, IntS, IntS, ArrS)
